@@ -9,27 +9,27 @@ CHECKS = {
    text="Every schedule with at most 1 (quick) / 2 (thorough) preemptions of ~790 two- and three-thread scenarios over 37 library operations on private values (every exported conversion, all accessors, all message codecs, error paths) plus a shared set of ~400 decoded messages that threads only read while the owner of their input buffers reuses those buffers, is executed on the instrumented library; each thread's result must equal its sequential result, no panic, no deadlock, no pool hazard, no two unordered accesses (one a write) to a package-level variable; replay determinism is asserted per scenario, every scenario starts in a fresh process. The race detector pass (24 cold-start processes, all pairs, 64-goroutine mix, input-reuse against readers) is sampling and labelled as such.",
    note="Scheduling points are derived syntactically from the current tree (package-level variables with a possible write site, their intra-procedural aliases, sync operations). Heap state shared through other channels is only covered by the race pass."),
  "C12": dict(level="exploration", design="4/C12",
-   technique="complete enumeration of the small identity domains (all MCC x MNC, all 2^24 AMF ids, all routing indicators, NAIs of every length 1..300) + structured alphabets for TMSI/MSIN/IMEI, against reference coders written from the TS 24.501/24.008/23.003 figures, round trips in both directions; every AMF id stored through the GUTI5G / TMSI5GS setters in all 6 orders over 3 prior contents",
+   technique="complete enumeration of the small identity domains (all MCC x MNC, all 2^24 AMF ids, all routing indicators, NAIs of every length 1..300) + structured alphabets for TMSI/MSIN/IMEI, against reference coders written from the TS 24.501/24.008/23.003 figures, round trips in both directions; every AMF id stored through the GUTI5G / TMSI5GS setters in all 6 orders over 3 prior contents; self-similar identities (TMSI equal to the rendered text at every earlier distance)",
    text="nasConvert and the nasType.MobileIdentity5GS text getters are compared with refconv over complete or per-position-exhaustive domains; invalid text must give an error from the WithError variants.",
    note="Trusted: refconv/ident.go. TMSI/MSIN/IMEI values are covered per position, not completely."),
  "C13": dict(level="exploration", design="4/C13",
-   technique="exhaustive enumeration of short lists over small alphabets (NSSAI lists to 8 entries, TAI lists, all compositions of service-area lists, every declared entry length, serving/mapped S-NSSAI relation classes for every SST x SD, every MCC 000..999 through the area lists), decoded by independent spec decoders",
+   technique="exhaustive enumeration of short lists over small alphabets (NSSAI lists to 8 entries, TAI lists, all compositions of service-area lists, every declared entry length, serving/mapped S-NSSAI relation classes for every SST x SD, every MCC 000..999 through the area lists, every list of up to 4 TAIs over a window of five consecutive TACs), decoded by independent spec decoders",
    text="The library's encoders must be decodable by reference decoders written from the 9.11.x figures to exactly the input lists; the library's NSSAI / LADN-indication decoders must recover reference-encoded lists and reject malformed lengths.",
    note="Trusted: refconv/lists.go. The DNN inside LADN is opaque."),
  "C14": dict(level="exploration", design="4/C14",
-   technique="exhaustive byte-string enumeration per helper (all strings to length 3, alphabet strings beyond incl. an alphabet read from the helper's current source, sequences of up to three words from the source's short string literals (up to five of the words the pinned tree does not have) as labels, dotted and concatenated text, unit repetition up to 255 octets, 2-mutation neighbourhoods of valid encodings) in watchdog-isolated worker processes (every call announces its input, so a hang is replayable); oracle = no panic / terminates / bounded heap",
+   technique="exhaustive byte-string enumeration per helper (all strings to length 3, alphabet strings beyond incl. an alphabet read from the helper's current source, sequences of up to three words from the source's short string literals (up to five of the words the pinned tree does not have) as labels, dotted and concatenated text, special text (case mappings that change UTF-8 length, ill-formed sequences) around every word, unit repetition up to 255 octets, 2-mutation neighbourhoods of valid encodings) in watchdog-isolated worker processes (every call announces its input, so a hang is replayable); oracle = no panic / terminates / bounded heap",
    text="Each of 35 byte-input helpers and 4 text-input variants is executed on every byte string of length 0..2 (0..3 thorough), alphabet strings to length 6/7, structured longer strings and the mutation neighbourhood of 12 valid encodings; hangs and heap blow-ups are caught by the worker watchdog and confirmed by single-case replay.",
    note="Element-typed getters are judged on decoder-deliverable lengths (MobileIdentity5GS >= 4 octets, DNN >= 1)."),
  "C15": dict(level="exploration", design="4/C15",
-   technique="exhaustive alphabet-string enumeration into the three parsers + 2-mutation neighbourhoods (totality); bounded exhaustive enumeration of rule / description values — complete value spaces of all one- and two-octet fields included — with a reference encoder written from figures 9.11.4.12/13 (round trip), packet filter contents of every length 0..255; call histories, value reuse, serialiser hygiene",
+   technique="exhaustive alphabet-string enumeration into the three parsers + 2-mutation neighbourhoods (totality); bounded exhaustive enumeration of rule / description values — complete value spaces of all one- and two-octet fields included — with a reference encoder written from figures 9.11.4.12/13 (round trip), packet filter contents of every length 0..255, octet-string fields handed over as guarded windows with spare capacity; call histories, value reuse, serialiser hygiene",
    text="All byte strings up to length 4 (5) over a 32-value alphabet and the mutation neighbourhood of full-coverage encodings must parse without panic, unknown identifiers being errors; rule lists over all operations, flags, 0..15 filters and all ordered pairs of the 18 component types, and description lists over 0..63 parameters and all ordered pairs/triples of the 7 kinds must serialise to the reference bytes and parse back to equal values.",
    note="Trusted: the reference encoder in props/c15.go. Flow labels below 2^19 only."),
  "C16": dict(level="exploration", design="4/C16",
-   technique="exhaustive enumeration: PCO unit lists, all ordered pairs of units over every identifier the library names, call histories (refused constructor calls, malformed parses) followed by probes, lists aligned to 4096/8192-octet marks, all alphabet byte strings to length 6/8 and a 2-mutation neighbourhood into UnMarshal, all 65 536 PDU session bitmaps in both directions",
+   technique="exhaustive enumeration: PCO unit lists, all ordered pairs of units over every identifier the library names, call histories (refused constructor calls, malformed parses) followed by probes, lists aligned to 4096/8192-octet marks, every sequence of up to three constructor calls, all alphabet byte strings to length 6/8 and a 2-mutation neighbourhood into UnMarshal, all 65 536 PDU session bitmaps in both directions",
    text="Serialise/parse round trip of container lists, 'no invented contents' oracle on arbitrary bytes (every parsed unit must be literally in the input at the reference reader's offset), complete PSI bitmap space.",
    note="A trailing incomplete unit may be dropped silently (allowed by the statement)."),
  "C17": dict(level="exploration", design="4/C17",
-   technique="complete enumeration of every duration, AMBR value x unit x direction, quarter-hour zone x DST, daily and per-second time stamps (also under different process-local zones and clock answers through a source-overlay seam), name lengths 0..64, against unit tables / BCD / GSM-7 reference decoders",
+   technique="complete enumeration of every duration, AMBR value x unit x direction, quarter-hour zone x DST, daily and per-second time stamps (also under different process-local zones and clock answers through a source-overlay seam; every offset change 2000..2100 of every zone of the system's tz database), name lengths 0..64, against unit tables / BCD / GSM-7 reference decoders",
    text="All 1 116 001 + 11 161 durations, all 655 360 AMBR inputs, all zone/DST combinations in the stated domain, ~73 000 day boundaries and 1.7 M per-second instants, and names of every length with every septet value at every position (<= 17) are encoded by the library and decoded by reference decoders.",
    note="Trusted: refconv/misc.go (unit tables of TS 24.008 10.5.7.4/4a, semi-octet BCD, TS 23.038 packing)."),
  "C18": dict(level="exploration", design="4/C18",
@@ -37,11 +37,11 @@ CHECKS = {
    text="All byte strings up to length 5 (7) over a 12-value alphabet, every message type and the mutation neighbourhood of valid encodings must decode without panic; command/complete/reject messages and nested lists built only through the API must encode to the reference bytes and decode to the same structure; SetPlmnDigit must agree with nasConvert.PlmnIDToNas for every MCC 100..999 x MNC 10..999.",
    note="Trusted: reference encoder in props/c18.go and refconv.PlmnOctets."),
  "C06": dict(level="exploration", design="4/C06",
-   technique="deviation-bounded exhaustive enumeration over (key, COUNT, bearer, direction, bit length, pattern) against an independent 128-EEA1/2/3 reference + exhaustive component comparison (all S-box/alpha table entries, lane sweeps of S1/S2/L1/L2, lock-step internal state) through verif hooks; parameter tuples that drive ZUC's zero-feedback branch in initialisation rounds 1-2 (thorough 1-4) computed by inverting the reference model; lengths up to 2^20 octets",
+   technique="deviation-bounded exhaustive enumeration over (key, COUNT, bearer, direction, bit length, pattern) against an independent 128-EEA1/2/3 reference + exhaustive component comparison (all S-box/alpha table entries, lane sweeps of S1/S2/L1/L2, lock-step internal state) through verif hooks; parameter tuples that drive ZUC's zero-feedback branch in initialisation rounds 1-2 (thorough 1-4) computed by inverting the reference model; lengths up to 2^20 octets; pinned parameter tuples at which ZUC's feedback needs a second fold (found offline on the reference model)",
    text="NEA1/2/3 and NASEncrypt are compared bit for bit with a reference written from the SAGE/ETSI specifications (S-boxes derived algebraically, validated on all published vectors) over every bit length 0..320, all 32x2 bearer/direction pairs, structured key/COUNT alphabets including every single-bit key and COUNT, the full COUNT x bearer x direction grid, and (thorough) all key x COUNT pairs and long inputs.",
    note="Trusted: refcrypto (validated at setup on the published UEA2/UIA2, 128-EEA2/EIA2, EEA3/EIA3 and RFC 4493 vectors), crypto/aes block encryption. Key/COUNT spaces are covered by alphabets, not completely."),
  "C07": dict(level="exploration", design="4/C07",
-   technique="deviation-bounded exhaustive enumeration over (key, COUNT, bearer, direction, message bit length, single-bit messages) against an independent 128-EIA1/2/3 reference + exhaustive GF(2^64) multiply / window-extraction component checks through verif hooks; ZUC zero-feedback parameter tuples by model inversion as in C06; EIA1 parameter tuples whose multiplication operands have a fully set / clear residue class mod 4, searched on the reference model",
+   technique="deviation-bounded exhaustive enumeration over (key, COUNT, bearer, direction, message bit length, single-bit messages) against an independent 128-EIA1/2/3 reference + exhaustive GF(2^64) multiply / window-extraction component checks through verif hooks; ZUC zero-feedback parameter tuples by model inversion as in C06; EIA1 parameter tuples whose multiplication operands have a fully set / clear residue class mod 4, searched on the reference model; messages whose blocks steer the EIA1 accumulator to 0 / 1 / all ones / LENGTH; pinned ZUC second-fold tuples",
    text="NIA1/2/3 and NASMacCalculate are compared with reference UIA2 (FRESH = bearer<<27), AES-CMAC (re-implemented from RFC 4493) and EIA3 over every message length 1..320 bits (octets for NIA2), single-bit messages at every position < 256, all bearer/direction pairs and the structured key/COUNT alphabets and grids of C06.",
    note="Trusted: refcrypto (see C06). Pad bits of the last octet are zero; L=0 is only covered by C08's no-panic law."),
  "C08": dict(level="exploration", design="4/C08",
@@ -53,7 +53,7 @@ CHECKS = {
    text="Every state of the message-grammar explorer (message x mandatory-part choice x optional-token sequence up to the stated depth, every declared length of every length field, every truncation point, 70 000-octet inputs; plus the remaining-length, structured-content, repetition and — where the static extraction finds hand-written decoder or encoder statements — dependency- and content-directed families) is rendered and executed through PlainNasDecode, Gmm/GsmMessageDecode and Decode<Msg>; all 2^24 three-octet and all shorter inputs are executed too. A worker watchdog turns hangs and heap blow-ups into violations; allocation is metered with ReadMemStats against 32n+2*65535+16KiB bytes / 4n+64 objects.",
    note="Trusted: pinned tables only shape the inputs (the oracle is crash/termination/allocation). Shapes deeper than the token depth are not enumerated; the allocation constants are calibrated (DESIGN.md C01)."),
  "C02": dict(level="model_checking", design="4/C02",
-   technique="bounded exhaustive enumeration of well-formed message values from the pinned tables (presence subsets, every legal length, content patterns, identifier-confusable and mobile-identity contents), each encoded/decoded through all three entry-point pairs and compared with reflect.DeepEqual and with a table-driven reference encoder",
+   technique="bounded exhaustive enumeration of well-formed message values from the pinned tables (presence subsets, every legal length, content patterns, identifier-confusable, mobile-identity and typed (TAI list, QoS) contents), each encoded — also into buffers with spare capacity — and decoded through all three entry-point pairs and compared with reflect.DeepEqual and with a table-driven reference encoder",
    text="Message values are generated from the pinned tables, built with the decoder's allocators, encoded by the real encoders, compared byte for byte with the reference encoding, decoded and compared field for field with the original.",
    note="Trusted: pinned tables + refcodec encoder. Contents are patterns plus a corpus of structured shapes (nested messages, EAP packets, lists); subsets beyond 3 flips are not enumerated for messages with more than 12 optional elements."),
  "C03": dict(level="model_checking", design="4.0, 4/C03",
@@ -61,7 +61,7 @@ CHECKS = {
    text="All byte strings produced by the grammar explorer that the decoder accepts (reordered, duplicated, junk-containing and alias inputs included) are re-encoded, re-decoded and re-encoded; canonicity is decided by the independent reference codec.",
    note="Trusted: pinned tables + refcodec (canonicity)."),
  "C04": dict(level="model_checking", design="4.0, 4/C04",
-   technique="grammar-state exploration with lock-step comparison of the real decoders against an independent table-driven decoder (accept/reject and every field) + static structural diff (go/parser) of all 90 generated functions against the pinned tables",
+   technique="grammar-state exploration with lock-step comparison of the real decoders against an independent table-driven decoder (accept/reject and every field), the encoders' output for every canonical string compared with the string (empty buffers and buffers with spare capacity) + static structural diff (go/parser) of all 90 generated functions against the pinned tables",
    text="For every explorer execution inside the grammar the implementation's verdict and decoded fields must equal the reference codec's; the declared-length sweep makes every length guard individually observable; the static half diffs slots, identifiers, guards, read/write expressions, emission order and dispatch of the generated code against the tables. Encoder bytes are compared with the reference encoding in C02.",
    note="Trusted: the pinned tables mc/spec/ts24501_msgs.json (provenance in the file) and refcodec."),
  "C05": dict(level="model_checking", design="4/C05",
@@ -69,19 +69,19 @@ CHECKS = {
    text="Complete enumeration of the dispatch space on decode and encode, on fresh and reused messages, with the remaining header octets through all their values for the assigned types, executed on the real entry points; oracle from the pinned tables, independent of the generated switch.",
    note="Trusted: pinned message-type table. A family header with an assigned type but nil body is not asserted (ambiguous)."),
  "C09": dict(level="exploration", design="4/C09",
-   technique="exhaustive enumeration per accessor pair: all 256 priors of the host octet x all 256 argument values (all field values x all 2^16 host-octet priors for partial two-octet fields), oracle computed from the pinned bit-layout annotation; DNN value accessor with label lengths and label texts from the element's source",
+   technique="exhaustive enumeration per accessor pair: all 256 priors of the host octet x all 256 argument values (all field values x all 2^16 host-octet priors for partial two-octet fields), oracle computed from the pinned bit-layout annotation; DNN value accessor with label lengths and label texts from the element's source; for element files that differ from the pinned tree every one-octet setter over all arguments x pairs of other octets x literal-derived values",
    text="Every Get/Set pair of every nasType element discovered in the current tree is executed over the full (prior host octet, argument) product with the remaining octets in {00,FF,A5}; Get must return exactly the annotated bits, Set must change exactly those bits and nothing else (other octets, Iei, Len, storage length).",
    note="Trusted: pinned annotations mc/spec/accessors.json (the repository's only layout documentation). Multi-octet copy fields and INF fields are covered by patterns."),
  "C10": dict(level="model_checking", design="4.0, 4/C10",
-   technique="grammar-state exploration; on every execution input-immutability, address-range aliasing check of every decoded byte slice against the input buffer, decode and encode determinism (the repeated call under every other map iteration order when the first ranged over a map — source-overlay seam), encode purity/append-only on every accepted message; every message type of both families in front of long tails (routing paths)",
+   technique="grammar-state exploration; on every execution input-immutability, address-range aliasing check of every decoded byte slice against the input buffer, decode and encode determinism (the repeated call under every other map iteration order when the first ranged over a map — source-overlay seam), encode purity/append-only on every accepted message; every message type of both families in front of long tails (routing paths); encoders into buffers with spare capacity",
    text="On every explorer execution (accepted and rejected): input and spare capacity unchanged, no decoded slice overlaps the input's backing array, two decodes agree; on accepted messages encoding leaves the message equal to an untouched twin, preserves pre-existing buffer contents and appends exactly the bytes produced into an empty buffer.",
    note="Trusted: reflection walk reaches every []uint8 of the message structs."),
  "C11": dict(level="model_checking", design="4/C11",
-   technique="explicit-state model checking on the real object: all 2^24 counter states x operation alphabet, lock-step with a 24-bit integer model; operation pairs without reads, hidden backing states, periods of one or two operations repeated 4096 (70 000) times",
+   technique="explicit-state model checking on the real object: all 2^24 counter states x operation alphabet, lock-step with a 24-bit integer model; operation pairs without reads, hidden backing states, periods of one or two operations repeated 4096 (70 000) times, the full cycle of 2^24 + 1000 increments",
    text="Every one of the 2^24 states of security.Count is constructed through the public API and every operation of the alphabet is executed from it on the implementation and on the reference model; Get/SQN/Overflow compared after each step. One-step agreement from every state gives all histories by induction; depth-3 sequences are enumerated as a redundancy.",
    note="Trusted: the 24-bit integer model in props/c11.go; Get exposes the complete abstract state."),
  "C20": dict(level="model_checking", design="4/C20",
-   technique="explicit-state BFS to fixpoint over reachable (live-set, scan-offset) states of the real IDGenerator, all operations in every state, live-set reference model + closure check; wide ranges by every history of up to 4 (5) operations around the powers of two; the library's clock reads go through a source-overlay seam and short paths are repeated under an alphabet of clock answers",
+   technique="explicit-state BFS to fixpoint over reachable (live-set, scan-offset) states of the real IDGenerator, all operations in every state, live-set reference model + closure check; wide ranges by every history of up to 4 (5) operations around the powers of two; fill-fragment-refill histories on ranges of 33..300 (2100) identifiers; the library's clock reads go through a source-overlay seam and short paths are repeated under an alphabet of clock answers",
    text="All reachable states of every small allocator configuration are visited (fixpoint), every Allocate / Allocate_inRange(a,b) / FreeID(x) is executed in each of them on the implementation (fresh object + shortest-path replay) and checked against a live-set model; in every state repeated Allocate must return exactly the free ids. Every path of up to two operations on the ranges of 2..4 identifiers is repeated under 14 answers of the clock seam.",
    note="Trusted: live-set model; state key read by reflection is used for deduplication only. Ranges up to 10 ids (thorough), non-negative bounds, in-range arguments."),
 }
